@@ -175,6 +175,9 @@ func (its *mapSnapshot) putCommonWithTimedType(key string, newOne timedType) (o 
 	}
 
 	if oldOne.getTime().Compare(newOne.getTime()) < 0 {
+		if oldOne.isTomb() { // the key was removed; it becomes present again
+			its.Size++
+		}
 		its.Map[key] = newOne
 		return oldOne, newOne
 	}
